@@ -28,7 +28,8 @@ TRUSTED_BASE = [
     "syntactic judgement that an expression is a u64)",
     "cryptographic primitives (BLAKE2b-256, CRC-32, Ed25519) are parameters of the model; at run time "
     "both sides use the blake2 / crc32fast / ed25519-dalek crates",
-    "dependency crates flat-tree, compact-encoding, random-access-* are modelled, not verified",
+    "dependency crates flat-tree, compact-encoding, random-access-memory (PagedMem.v), random-access-disk (DiskFile.v, over an assumed POSIX file), "
+    "async-broadcast (Broadcast.v) are modelled, not verified; each model is run against its crate on every run of the property that uses it",
     "the tie model<->/repo is differential execution (testing), see coverage.evaluations",
 ]
 
